@@ -47,7 +47,9 @@ try:
                 # the scripts locate the tree as <worktree>/SEED/<variant>/demo.* and build <worktree>/target
                 inner = os.path.join(wt, "SEED", os.path.basename(seed.rstrip("/")))
                 os.makedirs(inner, exist_ok=True)
-                shutil.copy(d, inner)
+                for fn_ in os.listdir(seed):
+                    if os.path.isfile(os.path.join(seed, fn_)):
+                        shutil.copy(os.path.join(seed, fn_), inner)
                 envb = {k: v for k, v in dict(os.environ, CARGO_NET_OFFLINE="true").items() if k != "CARGO_TARGET_DIR"}
                 subprocess.run("cargo build --offline --quiet", cwd=wt, shell=True, env=envb, stdout=subprocess.PIPE, stderr=subprocess.STDOUT)
                 extra = (" " + wt) if "--demo-arg-wt" in sys.argv else ""
